@@ -4,6 +4,7 @@
 cd /verif
 for d in seeded/*/; do
   id=$(basename $d); P=$(echo ${id^^} | cut -c1-3)
+  [ -f $d/obsolete ] && { echo "$id: skipped (obsolete, see $d/obsolete)"; continue; }
   props="$P $(cat $d/also 2>/dev/null)"
   ./lib/seedrun2.sh /verif/$d/patch.diff $props 2>&1 | grep -E 'exit=|does not|patch' | sed "s/^/$id: /" | cut -c1-260
 done
